@@ -16,8 +16,8 @@ RULE = ("texpr: random expressions of the documented type notation (names, 'a, '
         "one name at two types; grammar: every program (up to a cap) of CFG.depth_constraint on small DSLs, with and "
         "without instantiate_polymorphic_types / instantiate_constants, enumerated inside the runner.  "
         "non-trivial = the expression has >= 3 tokens / the case has >= 5 programs and one of depth >= 2.  "
-        "Inputs on which the pinned tokenizer model and the repaired one differ are capped (RISKY_CAP) until "
-        "proposed fix C15-1 is merged.")
+        "Inputs on which the pinned tokenizer model (code before fix 29cc27f) and the repaired one differ - a blank after "
+        "an opening bracket, a quote right after an operator - are all kept (they run last).")
 ASSUMPTIONS = ["ASCII text only (str.isalpha/isdigit/strip modelled on code points < 128); blanks are U+0020",
                "names are interned injectively (base 256), so structural comparison of wires is comparison of names",
                "format(value) of a constant is modelled for int, bool, None and lists of those",
@@ -25,7 +25,7 @@ ASSUMPTIONS = ["ASCII text only (str.isalpha/isdigit/strip modelled on code poin
 
 FINDING_TYPES = "c15_type_blank_or_quote_tokenisation"
 FINDING_NAMES = "c15_same_name_instances"
-RISKY_CAP = {"quick": 2, "thorough": 3}
+RISKY_CAP = {"quick": 10 ** 9, "thorough": 10 ** 9}      # no cap any more: fix 29cc27f is merged
 
 
 # ----------------------------------------------------------------------------
